@@ -249,7 +249,7 @@ MUTATIONS += [
     dict(id="r10-ptensor-plain", file=TNODES, old="            self._ptensor = nn.Parameter(\n", new="            self._ptensor = torch.as_tensor(\n", expect={"C19": ["R10c:cirkit.backend.torch.parameters.nodes.TorchTensorParameter:store"]}, allow_others=True),
     # R8 matchers / R3g / R1d sweep
     dict(id="r8-matcher-fanin", file=COMP, old="        in_nodes = incomings_fn(layer)\n        if len(in_nodes) > 1 and lid != num_entries - 1:\n            return None", new="        in_nodes = incomings_fn(layer)\n        if len(in_nodes) > 2 and lid != num_entries - 1:\n            return None", expect={"C02": ["R8:cirkit.backend.torch.compiler._match_layer_pattern:fan-in"], "C01": ["R8:cirkit.backend.torch.compiler._match_layer_pattern:fan-in"]}),
-    dict(id="r3g-stacked-range", file=FOLD, old="    if [i for idx in cum_fold_idx for i in idx] == list(range(fold_size)):", new="    if [i for idx in cum_fold_idx for i in idx] == list(range(len(cum_fold_idx) * len(cum_fold_idx[0]))):", expect={"C01": ["R3g:"], "C02": ["R3g:cirkit.backend.torch.graph.folding.build_address_book_stacked_entry"]}),
+    dict(id="r3g-stacked-range", file=FOLD, old="    if [i for idx in cum_fold_idx for i in idx] == list(range(fold_size)):", new="    if [i for idx in cum_fold_idx for i in idx] == list(range(len(cum_fold_idx) * len(cum_fold_idx[0]))):", expect={"C14": ["R3g:"], "C01": ["R3g:"], "C02": ["R3g:cirkit.backend.torch.graph.folding.build_address_book_stacked_entry"]}),
     dict(id="r1d-candecomp-semiring", file=OLAY, old="        weight=dense.weight,\n        semiring=compiler.semiring,\n    )\n    return (cpt,)", new="        weight=dense.weight,\n    )\n    return (cpt,)", expect={"C02": ["R1d:cirkit.backend.torch.optimization.layers.apply_candecomp"], "C01": ["R1d:cirkit.backend.torch.optimization.layers.apply_candecomp"]}),
     # R7i / R7p / R7d
     dict(id="r7i-evidence-reversed", file=FUN, old="        in_blocks[evi_block] = [layers_to_block[isl] for isl in sc.layer_inputs(sl)]", new="        in_blocks[evi_block] = list(reversed([layers_to_block[isl] for isl in sc.layer_inputs(sl)]))", expect={"C06": ["R7i:cirkit.symbolic.functional.evidence"]}, allow_others=True),
@@ -317,8 +317,8 @@ MUTATIONS += [
     dict(id="r6p-reference-compiles-to-tensor", file=RPAR, old="    return TorchPointerParameter(compiled_p, fold_idx=fold_idx)", new="    if fold_idx is None or compiled_p.num_folds == 1:\n        return compiled_p\n    return TorchPointerParameter(compiled_p, fold_idx=fold_idx)", expect={"C10": ["R6p:cirkit.backend.torch.rules.parameters.compile_reference_parameter"], "C19": ["R6p:cirkit.backend.torch.rules.parameters.compile_reference_parameter"]}, allow_others=True),
     dict(id="q-r6p-pointer-kwarg-checked", quiet=True, file=COMP, old="        return TorchPointerParameter(in_folded_node, fold_idx=in_fold_idx)", new="        assert isinstance(in_folded_node, TorchTensorParameter) and in_folded_node.num_folds >= len(group)\n        ptr = TorchPointerParameter(parameter=in_folded_node, fold_idx=in_fold_idx)\n        return ptr", expect={}),
     # ---- R3g (b)/(c): the no-op shortcuts compare the index in order, element by element
-    dict(id="r3g-stacked-sorted", file="cirkit/backend/torch/graph/folding.py", old="    if [i for idx in cum_fold_idx for i in idx] == list(range(fold_size)):", new="    if sorted(i for idx in cum_fold_idx for i in idx) == list(range(fold_size)):", expect={"C02": ["R3g:cirkit.backend.torch.graph.folding.build_address_book_stacked_entry:in-order"], "C01": ["R3g:"]}),
-    dict(id="r3g-stacked-lengths-only", file="cirkit/backend/torch/graph/folding.py", old="    if [i for idx in cum_fold_idx for i in idx] == list(range(fold_size)):", new="    if sum(len(idx) for idx in cum_fold_idx) == fold_size:", expect={"C02": ["R3g:cirkit.backend.torch.graph.folding.build_address_book_stacked_entry:guarded"], "C01": ["R3g:"]}),
+    dict(id="r3g-stacked-sorted", file="cirkit/backend/torch/graph/folding.py", old="    if [i for idx in cum_fold_idx for i in idx] == list(range(fold_size)):", new="    if sorted(i for idx in cum_fold_idx for i in idx) == list(range(fold_size)):", expect={"C14": ["R3g:"], "C06": ["R3m:"], "C02": ["R3g:cirkit.backend.torch.graph.folding.build_address_book_stacked_entry:in-order"], "C01": ["R3g:"]}),
+    dict(id="r3g-stacked-lengths-only", file="cirkit/backend/torch/graph/folding.py", old="    if [i for idx in cum_fold_idx for i in idx] == list(range(fold_size)):", new="    if sum(len(idx) for idx in cum_fold_idx) == fold_size:", expect={"C14": ["R3g:"], "C02": ["R3g:cirkit.backend.torch.graph.folding.build_address_book_stacked_entry:guarded"], "C01": ["R3g:"]}),
     dict(id="q-r3g-stacked-split-forms", quiet=True, file="cirkit/backend/torch/graph/folding.py", old="""    if [i for idx in cum_fold_idx for i in idx] == list(range(fold_size)):
         if len(cum_fold_idx) == 1 and len(cum_fold_idx[0]) == fold_size:
             # Equivalent to .unsqueeze(dim=0)
@@ -360,7 +360,7 @@ MUTATIONS += [
 """, expect={}),
     dict(id="q-r5d-ramp-sliced-from-iota", quiet=True, file=TNODES, old="        arange = torch.arange(1, degp1).to(x)  # shape (deg,).", new="        arange = torch.arange(degp1)[1:].to(x)  # shape (deg,).", expect={}),
     # ---- wave-3 seeds as kept
-    dict(id="w3-c02c-addressbook-prefix", patch="seeded/C02c/patch.diff", expect={"C01": ["R3g:"], "C02": ["R3g:"]}),
+    dict(id="w3-c02c-addressbook-prefix", patch="seeded/C02c/patch.diff", expect={"C14": ["R3g:"], "C01": ["R3g:"], "C02": ["R3g:"]}),
     dict(id="w3-c02d-stacked-sorted", patch="seeded/C02d/patch.diff", expect={"C01": ["R3g:"], "C02": ["R3g:"]}),
     dict(id="w3-c03c-einsum-index-order", patch="seeded/C03c/patch.diff", expect={"C01": ["R12b:"], "C03": ["R12b:"], "C02": ["R12b:"]}),
     dict(id="w3-c03d-integrate-topological-outputs", patch="seeded/C03d/patch.diff", expect={"C03": ["R7e:"]}),
